@@ -115,6 +115,7 @@ struct FnDir {
     entry: String,
     exit_: String,
     loops: BTreeMap<usize, String>,
+    loop_iters: BTreeMap<usize, String>,
     line: usize,
 }
 
@@ -328,7 +329,8 @@ impl<'a> VisitMut for LoopMarker<'a> {
             }
             syn::Expr::ForLoop(f) => {
                 let (label, pat, expr, body) = (&f.label, &f.pat, &f.expr, &f.body);
-                quote!(#label for #pat in #expr #ph #body)
+                let ih = quote::format_ident!("__VX_ITER_{}__", k);
+                quote!(#label for #pat in #ih #expr #ph #body)
             }
             syn::Expr::Loop(l) => {
                 let (label, body) = (&l.label, &l.body);
@@ -901,6 +903,10 @@ fn emit_fn(ctx: &mut Ctx, d: &FnDir, out: &mut String) {
             impl_header = pretty(hdr, 0);
         }
     }
+    // R8: restricted visibility (`pub(crate)`, `pub(super)`) has no meaning in a single-file crate
+    if let syn::Visibility::Restricted(_) = vis {
+        vis = syn::parse_quote!(pub);
+    }
     if f.trait_.is_some() && !d.opts.contains_key("inherent") {
         vis = syn::Visibility::Inherited;
     }
@@ -921,6 +927,9 @@ fn emit_fn(ctx: &mut Ctx, d: &FnDir, out: &mut String) {
             die(&format!("internal: loop placeholder {} lost", ph));
         }
         body = body.replacen(&ph, &txt, 1);
+        let ih = format!("__VX_ITER_{}__ ", k);
+        let it = d.loop_iters.get(&k).map(|s| format!("{}: ", s)).unwrap_or_default();
+        body = body.replacen(&ih, &it, 1);
     }
     for k in d.loops.keys() {
         if *k >= stats.loops {
@@ -1169,7 +1178,15 @@ fn process_text(ctx: &mut Ctx, tpl: &str, out: &mut String, depth: usize) {
                                     break;
                                 }
                                 Some("entry") => sec = Sec::Entry,
-                                Some("loop") => sec = Sec::Loop(w2[1].parse().unwrap_or_else(|_| die("loop needs ordinal"))),
+                                Some("loop") => {
+                                    let k: usize = w2[1].parse().unwrap_or_else(|_| die("loop needs ordinal"));
+                                    for w in &w2[2..] {
+                                        if let Some(n) = w.strip_prefix("iter=") {
+                                            d.loop_iters.insert(k, n.to_string());
+                                        }
+                                    }
+                                    sec = Sec::Loop(k)
+                                }
                                 Some("spec") => sec = Sec::Spec,
                                 Some("opt") => {
                                     for w in &w2[1..] {
